@@ -14,7 +14,7 @@ import sys
 
 from harness import common, graphs, symbolic, tlc
 
-CASTS_QUICK = [('CastA', 4), ('CastB', 4), ('CastC', 3)]
+CASTS_QUICK = [('CastA', 4), ('CastB', 4), ('CastC', 3), ('CastG', 2)]
 CASTS_THOROUGH = [('CastA', 6), ('CastB', 6), ('CastC', 5), ('CastD', 5), ('CastE', 5), ('CastG', 5)]
 TRAIN, LABEL = -1, -2
 
@@ -130,6 +130,20 @@ def strip_train(obs, w):
              'inp': [q for q in n['inp'] if not (i + 1 == w and q == TRAIN)]} for i, n in enumerate(obs)]
 
 
+def train_half_done(before, cast, call):
+    """The state the finding train-not-atomic predicts: exactly the Train-port subscription of the refused call stays
+    behind (and with it the worker counts as trained, its stateful group siblings as derived) - nothing else."""
+    w, p1, i1 = call['a'][0], call['a'][1], call['a'][2]
+    state = json.loads(json.dumps(before))
+    state[p1 - 1]['out'][i1] = sorted(state[p1 - 1]['out'][i1] + [[w, TRAIN]])
+    state[w - 1]['inp'] = sorted(state[w - 1]['inp'] + [TRAIN])
+    state[w - 1]['trained'] = True
+    for i, n in enumerate(cast):
+        if i + 1 != w and n['k'] == 'w' and n.get('sf') and n.get('grp') == cast[w - 1].get('grp'):
+            state[i]['derived'] = True
+    return state
+
+
 def classify(cast, wire, call, got, before, after, refused=()):
     """Input-class predicates of the known findings, decided from the abstract input (cast, declared wires, call);
     the outcome is only used to tell which of the listed failure modes was hit."""
@@ -149,8 +163,7 @@ def classify(cast, wire, call, got, before, after, refused=()):
     if stale & touched:
         return 'future-collapse-not-atomic'
     if call['op'] == 'train' and got != 'ok' and changed:
-        w = a[0]
-        if strip_train(after, w) == [{'out': n['out'], 'inp': n['inp']} for n in before]:
+        if after == train_half_done(before, cast, call):
             return 'train-not-atomic'
         if kinds[a[1]] == 'f' or kinds[a[3]] == 'f':
             return 'future-collapse-not-atomic'
